@@ -767,11 +767,13 @@ func classifyFileErr(err error) string {
 	if i := strings.Index(s, "\n"); i >= 0 {
 		s = s[:i]
 	}
+	// Only the class of the error is compared: which of several conflicting names the message reports
+	// depends on the iteration order and is not part of the property.
 	switch {
 	case strings.Contains(s, "has a package name conflict over "):
-		return "err-pkg n:" + s[strings.Index(s, "conflict over ")+len("conflict over "):]
+		return "err-pkg"
 	case strings.Contains(s, "has a name conflict over "):
-		return "err-name n:" + s[strings.Index(s, "conflict over ")+len("conflict over "):]
+		return "err-name"
 	case strings.Contains(s, "is already registered"):
 		return "err-path"
 	}
@@ -1052,6 +1054,9 @@ func evalSeq(c *C, ops []string) (fail *failure, answers []string, done []string
 		m := mans[i]
 		if strings.HasPrefix(m, "files ") || strings.HasPrefix(m, "types ") {
 			m = canonList(m)
+		}
+		if strings.HasPrefix(m, "err-pkg ") || strings.HasPrefix(m, "err-name ") {
+			m = m[:strings.IndexByte(m, ' ')]
 		}
 		if m != answers[i] {
 			verb := strings.Fields(done[i])[0]
